@@ -114,7 +114,7 @@ def run(ctx, f, rep):
         qbased += 1
         arms = {"Message": 0, "other": 0, "err": 0}
         midx = mnames.index("Message") if "Message" in mnames else -1
-        for p in pathq.paths(f, co, max_visits=2):
+        for p in pathq.paths(f, co, max_visits=2, inline_async=True):
             nexts = [ev for i, ev in pathq.calls(p, "next") if "StreamExt" in ev.name or "stream" in ev.name]
             if not nexts:
                 continue
